@@ -268,6 +268,7 @@ func (h *HttpServer) handleStreamInit(w http.ResponseWriter, r *http.Request) {
 	if info.HasHeader && streamResult.Header != nil {
 		initLogs := callCtx.drainLogs()
 		if err := h.server.writeStreamHeader(&buf, streamResult.Header, initLogs); err != nil {
+			handlerErr = err
 			h.writeHttpError(w, http.StatusInternalServerError, err, nil)
 			return
 		}
@@ -292,10 +293,15 @@ func (h *HttpServer) handleStreamInit(w http.ResponseWriter, r *http.Request) {
 			// Batch limit reached — append continuation token
 			token, tokenErr := h.packCursorTokenFor(callID, method, state, auth)
 			callToken, callErr := h.packCallToken(callID, outputSchema, auth, streamID)
-			if tokenErr != nil {
+			if tokenErr != nil || callErr != nil {
+				// The stream cannot be continued. Say so in the body: without an
+				// EXCEPTION batch the client reads a token-less 200 as a clean
+				// end of stream while the dispatch hook is told the call failed.
 				handlerErr = tokenErr
-			} else if callErr != nil {
-				handlerErr = callErr
+				if handlerErr == nil {
+					handlerErr = callErr
+				}
+				h.logIPCWriteErr("error-batch", info.Name, writeErrorBatch(writer, outputSchema, handlerErr, h.server.serverID, "", h.server.debugErrors))
 			} else if werr := writeStateTokenBatch(writer, outputSchema, token, callToken); werr != nil {
 				h.logIPCWriteErr("state-token-batch", info.Name, werr)
 				handlerErr = werr
@@ -311,11 +317,13 @@ func (h *HttpServer) handleStreamInit(w http.ResponseWriter, r *http.Request) {
 		// Exchange init — return state token (carry schema for dynamic methods)
 		token, err := h.packCursorTokenFor(callID, method, state, auth)
 		if err != nil {
+			handlerErr = err
 			h.writeHttpError(w, http.StatusInternalServerError, err, nil)
 			return
 		}
 		callToken, err := h.packCallToken(callID, outputSchema, auth, streamID)
 		if err != nil {
+			handlerErr = err
 			h.writeHttpError(w, http.StatusInternalServerError, err, nil)
 			return
 		}
@@ -583,8 +591,8 @@ func (h *HttpServer) handleStreamExchange(w http.ResponseWriter, r *http.Request
 		var schemaErr error
 		outputSchema, schemaErr = deserializeSchema(call.SchemaIPC)
 		if schemaErr != nil {
-			h.writeHttpError(w, http.StatusBadRequest,
-				&RpcError{Type: "RuntimeError", Message: fmt.Sprintf("failed to recover output schema: %v", schemaErr)}, nil)
+			handlerErr = &RpcError{Type: "RuntimeError", Message: fmt.Sprintf("failed to recover output schema: %v", schemaErr)}
+			h.writeHttpError(w, http.StatusBadRequest, handlerErr, nil)
 			return
 		}
 	} else {
@@ -663,6 +671,7 @@ func (h *HttpServer) handleProducerContinuation(ctx context.Context, w http.Resp
 		token, tokenErr := h.packCursorTokenFor(callID, info.Name, state, auth)
 		if tokenErr != nil {
 			err = tokenErr
+			h.logIPCWriteErr("error-batch", info.Name, writeErrorBatch(writer, schema, err, h.server.serverID, "", h.server.debugErrors))
 		} else if werr := writeStateTokenBatch(writer, schema, token, nil); werr != nil {
 			h.logIPCWriteErr("state-token-batch", info.Name, werr)
 			err = werr
